@@ -378,7 +378,9 @@ func (it *interp) execInstr(s *state, f frameID, fn *ssa.Function, in ssa.Instru
 		set(x, func(d *disjunct) rep {
 			return rep{kind: kSlice, len: it.intLin(d, f, x.Len), cap: it.intLin(d, f, x.Cap), isnil: lin.Const(0)}
 		})
-	case *ssa.MakeMap, *ssa.MakeChan, *ssa.MakeClosure:
+	case *ssa.MakeClosure:
+		set(x, func(d *disjunct) rep { return rep{kind: kPtr, isnil: lin.Const(0), clos: &closRef{f: f, mc: x}} })
+	case *ssa.MakeMap, *ssa.MakeChan:
 		set(x.(ssa.Value), func(d *disjunct) rep { return rep{kind: kPtr, isnil: lin.Const(0)} })
 	case *ssa.BinOp:
 		if x.Op == token.QUO || x.Op == token.REM {
